@@ -244,15 +244,15 @@ TTimeline ==
                           Has(a, "since"), Has(a, "until"))
          ord == IF Has(a, "reverse") /\ a.reverse THEN [i \in 1..Len(full) |-> full[Len(full) + 1 - i]] ELSE full
          lim == IF Has(a, "limit") /\ a.limit > 0 THEN First(ord, a.limit) ELSE ord
-     IN /\ Len(Ev.res.val) = Len(lim)
-        /\ \A i \in 1..Len(lim) : Ev.res.val[i][1] = lim[i] /\ Ev.res.val[i][2] = Visible[lim[i] + 1].ts
+     IN Chk("timeline", /\ Len(Ev.res.val) = Len(lim)
+                        /\ \A i \in 1..Len(lim) : Ev.res.val[i][1] = lim[i] /\ Ev.res.val[i][2] = Visible[lim[i] + 1].ts)
   /\ Observed(Ev.obs)
 
 TByUri ==
   /\ IsEvent("by_uri") /\ Read("by_uri")
   /\ LET id == ByUri(Visible, Ev.args.uri) IN
-       IF id = NoFrame THEN ResErr("FrameNotFoundByUri")
-       ELSE ResOk /\ Ev.res.val.id = id /\ Ev.res.val.st = Visible[id + 1].st
+       Chk("by_uri", IF id = NoFrame THEN ResErr("FrameNotFoundByUri")
+                     ELSE ResOk /\ Ev.res.val.id = id /\ Ev.res.val.st = Visible[id + 1].st)
   /\ Observed(Ev.obs)
 
 \* C14: vector search finds, for every embedding ever used, exactly the active frames carrying it
